@@ -1,6 +1,6 @@
 //! C09: `Generation::serial_next` / `par_next` against spec/ec/Generation.tla.
 
-use std::collections::{BTreeSet, HashMap};
+use std::collections::{BTreeSet, HashMap, HashSet, LinkedList, VecDeque};
 use std::sync::atomic::{AtomicU64, Ordering};
 use std::sync::Mutex;
 use std::thread::ThreadId;
@@ -13,6 +13,65 @@ use crate::util::{arg_req, arg_u64, guarded, run_rng, Out};
 
 #[derive(Debug)]
 pub struct MakerErr(pub u64);
+
+/// An individual: `id` is its identity, `key` is what set-like populations identify it by
+/// (equality, order and hash look at the key only).
+#[derive(Clone, Copy, Debug)]
+pub struct Ind {
+    pub id: u64,
+    pub key: u64,
+}
+impl PartialEq for Ind {
+    fn eq(&self, o: &Self) -> bool {
+        self.key == o.key
+    }
+}
+impl Eq for Ind {}
+impl PartialOrd for Ind {
+    fn partial_cmp(&self, o: &Self) -> Option<std::cmp::Ordering> {
+        Some(self.cmp(o))
+    }
+}
+impl Ord for Ind {
+    fn cmp(&self, o: &Self) -> std::cmp::Ordering {
+        self.key.cmp(&o.key)
+    }
+}
+impl std::hash::Hash for Ind {
+    fn hash<H: std::hash::Hasher>(&self, h: &mut H) {
+        self.key.hash(h);
+    }
+}
+
+/// the collections the blanket `Population` impl is documented to support
+pub trait Pop: Send + Sync + Clone + FromIterator<Ind> {
+    const KIND: &'static str;
+    const NAME: &'static str;
+    fn ids(&self) -> Vec<u64>;
+}
+macro_rules! pop_impl {
+    ($t:ty, $kind:expr, $name:expr) => {
+        impl Pop for $t {
+            const KIND: &'static str = $kind;
+            const NAME: &'static str = $name;
+            fn ids(&self) -> Vec<u64> {
+                self.iter().map(|i| i.id).collect()
+            }
+        }
+        impl<'p> Operator<&'p $t> for &Maker<'_> {
+            type Output = Ind;
+            type Error = MakerErr;
+            fn apply<R: Rng + ?Sized>(&self, pop: &'p $t, rng: &mut R) -> Result<Ind, MakerErr> {
+                self.make(pop.ids(), std::ptr::from_ref(pop) as u64, rng)
+            }
+        }
+    };
+}
+pop_impl!(Vec<Ind>, "seq", "Vec");
+pop_impl!(VecDeque<Ind>, "seq", "VecDeque");
+pop_impl!(LinkedList<Ind>, "seq", "LinkedList");
+pop_impl!(BTreeSet<Ind>, "set", "BTreeSet");
+pop_impl!(HashSet<Ind>, "set", "HashSet");
 
 struct Shared {
     events: Mutex<Vec<Value>>,
@@ -30,28 +89,19 @@ struct Maker<'a> {
     step: std::sync::atomic::AtomicUsize,
     delays: Vec<u8>,           // per call: 0 none, 1 yield, 2.. sleep (schedule perturbation)
     pop_addr: AtomicU64,       // address of the generation's own population object (0 = unknown)
+    key_mod: u64,              // children get key (word % key_mod): equal keys collapse in set-like populations
 }
 
 impl Composable for Maker<'_> {}
 
 impl Composable for &Maker<'_> {}
-impl<'p> Operator<&'p Vec<u64>> for &Maker<'_> {
-    type Output = u64;
-    type Error = MakerErr;
-    fn apply<R: Rng + ?Sized>(&self, pop: &'p Vec<u64>, rng: &mut R) -> Result<u64, MakerErr> {
-        (**self).apply(pop, rng)
-    }
-}
-impl<'p> Operator<&'p Vec<u64>> for Maker<'_> {
-    type Output = u64;
-    type Error = MakerErr;
-    fn apply<R: Rng + ?Sized>(&self, pop: &'p Vec<u64>, rng: &mut R) -> Result<u64, MakerErr> {
+impl Maker<'_> {
+    fn make<R: Rng + ?Sized>(&self, seen: Vec<u64>, addr: u64, rng: &mut R) -> Result<Ind, MakerErr> {
         let tid = {
             let mut t = self.sh.threads.lock().expect("lock");
             let n = t.len() as u64 + 1;
             *t.entry(std::thread::current().id()).or_insert(n)
         };
-        let addr = std::ptr::from_ref(pop) as u64;
         let call;
         {
             let mut ev = self.sh.events.lock().expect("lock");
@@ -59,7 +109,7 @@ impl<'p> Operator<&'p Vec<u64>> for Maker<'_> {
             let first = self.pop_addr.compare_exchange(0, addr, Ordering::SeqCst, Ordering::SeqCst);
             let same = first.is_ok() || first == Err(addr);
             ev.push(json!({"ev": "start", "run": self.run, "call": call, "thread": tid,
-                           "seen": pop.clone(), "same_object": same}));
+                           "seen": seen, "same_object": same}));
         }
         let word: u64 = rng.next_u64();
         match self.delays.get(call as usize % self.delays.len().max(1)).copied().unwrap_or(0) {
@@ -69,15 +119,48 @@ impl<'p> Operator<&'p Vec<u64>> for Maker<'_> {
         }
         let mut ev = self.sh.events.lock().expect("lock");
         if self.fail_plan[self.step.load(Ordering::SeqCst)].contains(&call) {
-            ev.push(json!({"ev": "end", "run": self.run, "call": call, "ok": false, "word": "", "child": 0}));
+            ev.push(json!({"ev": "end", "run": self.run, "call": call, "ok": false, "word": "", "child": 0, "key": 0}));
             Err(MakerErr(call))
         } else {
             let child = self.sh.next_id.fetch_add(1, Ordering::SeqCst);
+            // keys of children live above the keys of the initial members (1..=n <= 40)
+            let key = 100 + word % self.key_mod;
             ev.push(json!({"ev": "end", "run": self.run, "call": call, "ok": true,
-                           "word": format!("{word:016x}"), "child": child}));
-            Ok(child)
+                           "word": format!("{word:016x}"), "child": child, "key": key}));
+            Ok(Ind { id: child, key })
         }
     }
+}
+
+/// one run (1-3 consecutive steps on ONE `Generation` object) on population type `P`
+#[allow(clippy::too_many_arguments)]
+fn run_on<P>(sh: &Shared, run: u64, n: usize, serial: bool, threads: usize, fail_plan: &[BTreeSet<u64>],
+             delays: &[u8], key_mod: u64) -> Vec<Value>
+where
+    P: Pop + ec_core::population::Population<Individual = Ind> + rayon::iter::FromParallelIterator<Ind>,
+    for<'m, 'a, 'p> &'m Maker<'a>: Operator<&'p P, Output = Ind, Error = MakerErr>,
+{
+    let mut lines: Vec<Value> = Vec::new();
+    let pool = rayon::ThreadPoolBuilder::new().num_threads(threads).build().expect("pool");
+    let maker = Maker { sh, run, fail_plan: fail_plan.to_vec(), step: std::sync::atomic::AtomicUsize::new(0),
+                        delays: delays.to_vec(), pop_addr: AtomicU64::new(0), key_mod };
+    let pop: P = (1..=n as u64).map(|i| Ind { id: i, key: i }).collect();
+    lines.push(json!({"ev": "reset", "run": run, "mode": if serial { "serial" } else { "par" }, "kind": P::KIND,
+                      "collection": P::NAME, "n": n, "threads": threads, "pop": pop.ids()}));
+    let mut g = Generation::new(&maker, pop);
+    for k in 0..fail_plan.len() {
+        sh.call.store(0, Ordering::SeqCst);
+        maker.step.store(k, Ordering::SeqCst);
+        lines.push(json!({"ev": "begin", "run": run}));
+        let r = if serial { g.serial_next() } else { pool.install(|| g.par_next()) };
+        lines.append(&mut sh.events.lock().expect("lock"));
+        let after = g.population().ids();
+        lines.push(match r {
+            Ok(()) => json!({"ev": "return", "run": run, "ok": true, "err_call": 0, "pop_after": after}),
+            Err(MakerErr(c)) => json!({"ev": "return", "run": run, "ok": false, "err_call": c, "pop_after": after}),
+        });
+    }
+    lines
 }
 
 pub fn trace(args: &[String]) -> i32 {
@@ -90,20 +173,20 @@ pub fn trace(args: &[String]) -> i32 {
         let n = [0usize, 1, 2, 3, 8, 33][rng.random_range(0..6)];
         let serial = rng.random_range(0..3) == 0;
         let threads = [1usize, 2, 3, 4, 8, 16][rng.random_range(0..6)];
-        let steps = rng.random_range(1..=2);
+        let steps = rng.random_range(1..=3);
+        let coll = rng.random_range(0..8u32);        // 0-3 Vec, 4 VecDeque, 5 LinkedList, 6 BTreeSet, 7 HashSet
+        let n = if coll >= 6 { n.min(12) } else { n };
+        let key_mod = [1u64, 2, 3, 1 << 40][rng.random_range(0..4)];
         let sh = Shared {
             events: Mutex::new(Vec::new()),
             threads: Mutex::new(HashMap::new()),
             call: AtomicU64::new(0),
             next_id: AtomicU64::new(1000),
         };
-        let pop: Vec<u64> = (1..=n as u64).collect();
-        out.line(&json!({"ev": "reset", "run": run, "mode": if serial { "serial" } else { "par" },
-                         "n": n, "threads": threads, "pop": pop}));
         let mut fail_plan: Vec<BTreeSet<u64>> = Vec::new();
         for _ in 0..steps {
             let mut f = BTreeSet::new();
-            if n > 0 && rng.random_range(0..2) == 0 {
+            if n > 0 && rng.random_range(0..3) == 0 {
                 for _ in 0..rng.random_range(1..=2) {
                     f.insert(rng.random_range(1..=n as u64));
                 }
@@ -111,28 +194,12 @@ pub fn trace(args: &[String]) -> i32 {
             fail_plan.push(f);
         }
         let delays: Vec<u8> = (0..7).map(|_| rng.random_range(0..5)).collect();
-        let res = guarded(|| {
-            let mut lines: Vec<Value> = Vec::new();
-            let pool = rayon::ThreadPoolBuilder::new().num_threads(threads).build().expect("pool");
-            // one Generation object per step sequence; the maker is rebuilt per step only through
-            // its shared state (call numbers restart at each step)
-            let maker = Maker { sh: &sh, run, fail_plan: fail_plan.clone(), step: std::sync::atomic::AtomicUsize::new(0),
-                                delays: delays.clone(), pop_addr: AtomicU64::new(0) };
-            // consecutive steps on ONE Generation object
-            let mut g = Generation::new(&maker, pop.clone());
-            for k in 0..fail_plan.len() {
-                sh.call.store(0, Ordering::SeqCst);
-                maker.step.store(k, Ordering::SeqCst);
-                lines.push(json!({"ev": "begin", "run": run}));
-                let r = if serial { g.serial_next() } else { pool.install(|| g.par_next()) };
-                lines.append(&mut sh.events.lock().expect("lock"));
-                let after = g.population().clone();
-                lines.push(match r {
-                    Ok(()) => json!({"ev": "return", "run": run, "ok": true, "err_call": 0, "pop_after": after}),
-                    Err(MakerErr(c)) => json!({"ev": "return", "run": run, "ok": false, "err_call": c, "pop_after": after}),
-                });
-            }
-            lines
+        let res = guarded(|| match coll {
+            4 => run_on::<VecDeque<Ind>>(&sh, run, n, serial, threads, &fail_plan, &delays, key_mod),
+            5 => run_on::<LinkedList<Ind>>(&sh, run, n, serial, threads, &fail_plan, &delays, key_mod),
+            6 => run_on::<BTreeSet<Ind>>(&sh, run, n, serial, threads, &fail_plan, &delays, key_mod),
+            7 => run_on::<HashSet<Ind>>(&sh, run, n, serial, threads, &fail_plan, &delays, key_mod),
+            _ => run_on::<Vec<Ind>>(&sh, run, n, serial, threads, &fail_plan, &delays, key_mod),
         });
         match res {
             Ok(lines) => {
